@@ -218,4 +218,18 @@ PROPS = {
         'trusted_base': ['process_ast (the visitor) as an abstract callee: may raise any Exception, touches only analysis data',
                          'system_error attaches exactly one muted system feedback (ghost counter)'],
     },
+    'C09': {
+        'sidecars': ['contracts/c09_flow.py'],
+        'native': 'c09', 'ground': True,
+        'level': 'other',
+        'explanation': 'Proved from the real source (kernel of the merge): match_rso is the join of the flat yes/no/maybe lattice; '
+                       'State.__init__/State.copy/trace_state keep the three flags; combine_states joins the flags of both paths, '
+                       'counts a name absent on the other path as no, and stays in the lattice. The 9 cells of match_rso are also '
+                       'decided by evaluation. Bounded (B-tifa-flow): exactness of the diagnoses on the real tool for all small '
+                       'branch programs against an oracle that enumerates every combination of branch outcomes, and no missed '
+                       'uninitialised read on random loop/function programs against instrumented real execution of every choice '
+                       'sequence. The visitors, merge_paths, store/load_variable and _finish_scope are covered only by the bounded part.',
+        'trusted_base': ['TIFA visitors, NewPath, merge_paths, store_variable/load_variable, _finish_scope: bounded part only',
+                         'is_subtype / type_changes / locate / _issue as abstract callees inside combine_states'],
+    },
 }
